@@ -116,6 +116,16 @@ def cases(thorough):
                     yield {"members": ms, "mode": mode, "q": q, "filters": filters}
 
 
+def many_cases(thorough):
+    """hundreds of rows: row counters and the footer sums pass 255/256 and 65535/65536"""
+    for n in (255, 256, 257, 1000) + ((65537,) if thorough else ()):
+        ms = [dict(base(2 if i % 3 else 1, name=b"member%05d.dat" % i, size=(i * 7919) % 65000, packed=(i * 104729) % 64000), data="") for i in range(n)]
+        for mode in ("l", "lv", "v", "vv"):
+            yield {"members": ms, "mode": mode}
+        yield {"members": ms, "mode": "l", "q": "q1", "filters": [hx(b"*7.dat")]}
+        yield {"members": ms, "mode": "v", "filters": [hx(b"member000??.dat"), hx(b"*99.dat")]}
+
+
 def london_cases(thorough):
     for ms in member_space(False)[-120:] + [m for m in member_space(False) if "time" in m[0]][:200:3]:
         for mode in ("l", "vv"):
@@ -124,12 +134,13 @@ def london_cases(thorough):
 
 def run(ctx):
     cliprop.run_space(ctx, "props.cli_c19", "members", cases(ctx.thorough), chunk=32)
+    cliprop.run_space(ctx, "props.cli_c19", "many", many_cases(ctx.thorough), chunk=1)
     cliprop.run_space(ctx, "props.cli_c19", "members-london", london_cases(ctx.thorough), env={"TZ": "Europe/London"}, chunk=32)
     ctx.assumptions += ["vlib/listrender.py reproduces all 720 listings recorded from the original Unix LHA tool (./check selftest); header fields come from the C reference parser/normaliser (ref_hdrjson), float32 ratio arithmetic is emulated exactly",
                         "totals are kept below 2^32 (the statement says 'sums'; a 32-bit total is not decidable from it); fixed 'now' through TEST_NOW_TIME, archive mtime set with utime"]
     return ctx.finish(
         rule="single-member archives varying one column at a time over its boundary values (size x packed over {0,1,9999999,10^7,2^31,2^32-1} x levels; all 256 OS types; each permission bit x type nibble; all 128 OS-9 words; uid/gid boundaries; 15 Unix and 7 DOS timestamps around the six-month boundary, 0 and 2^32-1; name lengths 0..40 and 300; names, directory parts and link targets of 250..260, 511..513, 1023..1025 and 4000 (thorough 8191..8193, 20000) bytes; links and directories at every level; every method name) x {l, lv, v, vv}; "
-             "archives of 0/1/2/5 members x 4 modes x quiet {none,q0,q1,q2,q} x 9 wildcard lists (incl. backtracking patterns); a DST-bearing zone (Europe/London) for the time columns. Oracle: stdout equals the reference rendering byte for byte. non-trivial = cases with at least one selected row",
+             "archives of 0/1/2/5 members x 4 modes x quiet {none,q0,q1,q2,q} x 9 wildcard lists (incl. backtracking patterns); archives of 255/256/257/1000 (thorough 65537) members with and without wildcard lists; a DST-bearing zone (Europe/London) for the time columns. Oracle: stdout equals the reference rendering byte for byte. non-trivial = cases with at least one selected row",
         replay_fn=lambda rep: cliprop.replay_case(rep))
 
 
